@@ -1,16 +1,75 @@
-(* C14 — resume handlers run once per object per operator process (function level: the per-object memory flags,
-   cause detection, handler selection).  Only statements here; proofs in Proofs/Resume.v, model in Model/Resume.v.
+(* C14 — resume handlers run once per object per operator process.  Function level; only statements here.
+   Models: Model/Resume.v (the per-object memory flags, cause detection, handler selection; execution abstracted as
+   "every awakened selected handler runs") and Model/ResumeCycle.v (the same flags composed with the CONCRETE progress
+   records and the C02 pipeline of Model/Progress.v: every lifecycle, real purge/store).  Proofs: Proofs/Resume.v,
+   Proofs/ResumeCycle.v (the latter uses the theorems of Proofs/Progress.v, C02).  The history level (whole operator
+   against an API server) is the coordinator's: cycle_monitors.mon_c14.
 
    Reading guide.  [K] is the type of memory keys (the uid) with a correct equality [keqb] (rs_lawful).  A history is a list of
-   labels: [LEv i] = one watch/listing event of one object processed by the reactor (its type, the object's abstract view,
-   the oracles), [LRestart] = a new operator process (fresh memories).  [obs_at regs pre b] is what the reactor does with
-   event [b] delivered after the history [pre] since the very first start; [rs_trace] is the list of all of them
-   (C14_trace_is_obs_at).  [rs_quiet k l]: no restart and no DELETED event of k in l.  All histories are quantified
-   universally: re-listings (every object again with type None, at any time), reconnects, edits (the views are arbitrary
-   per event), outcomes and retries (oracles), events of other objects in between, restarts. *)
+   labels: [LEv i] / [CEv i] = one watch/listing event of one object processed by the reactor (its type, the object's
+   view, the oracles), [LRestart] / [CRestart] = a new operator process (fresh memories; the records on the objects stay).
+   [obs_at regs pre b] / [cobs_at ...] is what the reactor does with event [b] delivered after the history [pre] since the
+   very first start; [rs_trace] / [rc_trace] is the list of all of them (C14_trace_is_obs_at, C14_cycle_trace_is_obs_at).
+   [rs_quiet k l]: no restart and no DELETED event of k in l.  All histories are quantified universally: re-listings
+   (every object again with type None, at any time), reconnects, edits (the views are arbitrary per event), outcomes and
+   retries (oracles), events of other objects in between, restarts / crashes at any point (a label boundary; a patch lost
+   in a crash is covered: rc_world does not relate the records across a restart).
+
+   CLAUSE TABLE (statement and quantifier of C14 in properties.jsonl)
+   ------------------------------------------------------------------------------------------------------------------
+   1  "when an operator starts, every object that already exists, was handled before and carries no unfinished progress
+      from an earlier process gets its resume handlers executed"
+      1a selected at first sight .............. full: C14_runs_for_preexisting (first event of the process, from the listing,
+                                                handled before, reaches the handling: every matching resume registration is
+                                                selected — cause resume / update / delete — and, abstract execution, invoked
+                                                when awake), C14_runs_for_preexisting_deferred (the listing event itself did
+                                                not reach the handling), C14_cycle_selects_resume_while_initial (composed model)
+      1b the obligation stays until done ...... full: C14_resume_pending_until_closed (until some event of the object closes a
+                                                cycle, every event of it is initial — whatever is re-listed / edited / retried),
+                                                C14_cycle_closes_only_when_resumed (fully_handled_once is set only by a handling
+                                                step in which EVERY selected handler, so every selected resume handler, has
+                                                finished; with no handler selected it is set at once: that is the code)
+      1c due handlers do run .................. full for all_at_once / one_by_one / asap: C14_cycle_due_resume_is_invoked
+                                                (= C02_due_is_invoked on the step: all due / the first due / a due one with the
+                                                fewest attempts); records "from an earlier process" only delay (sleeping) or
+                                                exclude (finished) a handler: C14_cycle_invoked_are_selected
+      1d "gets ... executed" as an eventuality  not a function-level statement (needs the closed loop: events keep arriving,
+                                                patches are applied): monitored — function level resume-missed-at-first-cycle,
+                                                history level mon_c14 resume-missed; C03's liveness theorems are the coordinator's
+   2  "each resume handler runs to completion at most once per object per operator process: re-listings, reconnects and
+      later changes of the object do not repeat it"
+      2a the flags ............................ full: C14_initial_monotone, C14_closed_cycle_ends_resuming,
+                                                C14_not_for_created_later, C14_never_mixed_into_creation
+      2b the count ............................ _partial + _refuted:
+                                                C14_cycle_at_most_once (composed model; for every history, lifecycle, outcome:
+                                                <= 1 success per process, object, resume registration) under world hypotheses
+                                                (uid never reused; events show the records as kopf's own patch left them;
+                                                handlers' own writes keep finished records finished; a deletion is never undone)
+                                                and the guard rc_no_purge_while_open = no supersession purge between the success
+                                                and the closing of the cycle, except the purge of a deletion the registration
+                                                did not opt in for.  The C02 hypothesis of the first round is discharged here
+                                                against C02_finished_never_selected / C02_finished_stays_finished /
+                                                C02_attempt_is_recorded / C02_close_iff_done.
+                                                C14_cycle_at_most_once_unguarded_refuted: without the guard, false of the faithful
+                                                model on the history of finding F1401 (= F0201 seen from C14), computed by the
+                                                model itself: C14_example_flap_purges.
+                                                C14_at_most_once / C14_at_most_once_unconditional_refuted: the same over the
+                                                abstract model with the C02 guarantee as an explicit hypothesis (kept: names stable)
+   3  "resume handlers are not run for objects being deleted unless they opted in"
+                                                full: C14_not_on_deleting_unless_opted_in, C14_cycle_not_on_deleting (selection),
+                                                C14_invoked_only_selected, C14_cycle_invoked_are_selected (only selected run)
+   Q  quantifier: reconnects / re-listings (Listed events of any objects at any time), edits before / during / after the
+      cycle (arbitrary views), failures and retries (arbitrary outcome oracles, sleeping records, three lifecycles + any
+      position-picking one via C02), restarts and crash points (LRestart / CRestart anywhere) — all universally quantified
+      in every theorem above.
+   Not covered by proof: the gate (whether process_changing_cause is reached: throttling, prematch, finalizer juggling,
+   consistency wait — an oracle here; C05 / C03); the world hypotheses themselves (patches applied, no stale echo: C03);
+   two different functions registered under one handler id (the pipeline model is per id; monitors skip such ids);
+   sub-handlers of resume handlers beyond "their writes keep finished records finished" (C02). *)
 From Coq Require Import ZArith List String Bool Arith.
-From KV Require Import Base.Json Model.Resume Proofs.Resume.
+From KV Require Import Base.Json Model.Resume Proofs.Resume Model.Progress Model.ResumeCycle Proofs.ResumeCycle.
 Import ListNotations.
+Open Scope nat_scope.
 Open Scope list_scope.
 
 (* the trace of a history consists of the observations [obs_at] of its prefixes, stamped with the incarnation number *)
@@ -123,6 +182,124 @@ Theorem C14_never_mixed_into_creation : forall K (keqb : K -> K -> bool) regs ms
 Proof. exact (@never_mixed_into_creation). Qed.
 Print Assumptions C14_never_mixed_into_creation.
 
+(* only selected handlers are invoked (abstract model) *)
+Theorem C14_invoked_only_selected : forall K (keqb : K -> K -> bool) regs ms i ix oc,
+  In (ix, oc) (ob_invoked (snd (rs_step keqb regs ms i))) -> In ix (ob_selected (snd (rs_step keqb regs ms i))).
+Proof. exact (@invoked_only_selected). Qed.
+Print Assumptions C14_invoked_only_selected.
+
+(* ================= the composed model: flags + concrete progress records + the C02 pipeline ================= *)
+
+Theorem C14_cycle_trace_is_obs_at : forall K (keqb : K -> K -> bool) name regs pre b,
+  rc_trace keqb name regs (pre ++ [CEv b]) =
+  rc_trace keqb name regs pre ++ [{| ce_epoch := cepoch_after 0 pre; ce_in := b; ce_obs := cobs_at keqb name regs pre b |}].
+Proof. exact (@ctrace_snoc). Qed.
+Print Assumptions C14_cycle_trace_is_obs_at.
+
+(* 1b. An object first seen in a process by the listing stays initial at every event — re-listings, edits, retries, events
+   of other objects in between — until some event of it has set fully_handled_once (l is arbitrary). *)
+Theorem C14_resume_pending_until_closed : forall K (keqb : K -> K -> bool), rs_lawful keqb ->
+  forall name regs pre a l b,
+    rs_find keqb (ci_key a) (crun keqb name regs [] pre) = None ->
+    ci_evt a = EListed ->
+    ci_key a = ci_key b -> rc_quiet keqb (ci_key b) (CEv a :: l) ->
+    co_handled_after (cobs_at keqb name regs pre a) = false ->
+    (forall l1 c l2, l = l1 ++ CEv c :: l2 -> ci_key c = ci_key b ->
+                     co_handled_after (cobs_at keqb name regs (pre ++ CEv a :: l1) c) = false) ->
+    co_initial0 (cobs_at keqb name regs (pre ++ CEv a :: l) b) = true.
+Proof. exact (@pending_until_closed). Qed.
+Print Assumptions C14_resume_pending_until_closed.
+
+(* 1a (composed). While initial, every event that reaches the handling of a handled-before object selects every matching
+   resume registration (up to _deduplicated), opted in if the object is being deleted: any memories, any event type. *)
+Theorem C14_cycle_selects_resume_while_initial : forall K (keqb : K -> K -> bool) name regs ms b h,
+  co_initial0 (snd (rc_step keqb name regs ms b)) = true ->
+  ci_evt b <> EDeleted -> ci_gate b = true -> ci_old_none b = false ->
+  (ci_deleting b = true -> ci_blocked b = true /\ rs_ob (hd_deleted h) = true) ->
+  In h regs -> hd_reason h = None -> rs_is_resume_handler h = true -> rs_mem_nat (hd_ix h) (ci_match b) = true ->
+  cselects_resume regs b h (snd (rc_step keqb name regs ms b)).
+Proof. exact (@initial_selects). Qed.
+Print Assumptions C14_cycle_selects_resume_while_initial.
+
+(* 1b. fully_handled_once is set only by a step that reaches the handling with a handler cause and in which every selected
+   handler — every selected resume handler — has finished (success or permanent failure) after the step. *)
+Theorem C14_cycle_closes_only_when_resumed : forall K (keqb : K -> K -> bool) name regs ms i,
+  rs_handled (crecalled keqb ms i) = false ->
+  co_handled_after (snd (rc_step keqb name regs ms i)) = true ->
+  ci_gate i = true /\ rs_is_handler_reason (co_reason (snd (rc_step keqb name regs ms i))) = true /\
+  forall h', In h' (co_sel (snd (rc_step keqb name regs ms i))) ->
+    exists hs, pg_find (name (hd_id h')) (st_items (r_final (co_result (snd (rc_step keqb name regs ms i))))) = Some hs /\
+               pg_finished hs = true.
+Proof. exact (@closes_only_when_finished). Qed.
+Print Assumptions C14_cycle_closes_only_when_resumed.
+
+(* 1c. In a handling step the handlers that run are the due ones among the selected (not recorded finished, recorded delay
+   elapsed), as the lifecycle picks them. *)
+Theorem C14_cycle_due_resume_is_invoked : forall K (keqb : K -> K -> bool) name regs ms i,
+  let o := snd (rc_step keqb name regs ms i) in
+  ci_gate i = true -> rs_is_handler_reason (co_reason o) = true ->
+  let invoked := map fst (r_invoked (co_result o)) in
+  let due := pg_due (ci_body i) (rc_ids name (co_sel o)) (ci_now i) in
+  (ci_lc i = LAll -> invoked = due) /\
+  (ci_lc i = LOne -> invoked = firstn 1 due) /\
+  (ci_lc i = LAsap -> (due = [] /\ invoked = []) \/
+                      exists s, invoked = [s] /\ In s due /\
+                                forall s', In s' due -> (pg_rec_retries (pg_find s (ci_body i)) <= pg_rec_retries (pg_find s' (ci_body i)))%Z).
+Proof. exact (@cycle_due_is_invoked). Qed.
+Print Assumptions C14_cycle_due_resume_is_invoked.
+
+(* 3 / 1c. Whatever is invoked is a selected handler whose record is neither finished nor sleeping; the retry number is the
+   recorded one. *)
+Theorem C14_cycle_invoked_are_selected : forall K (keqb : K -> K -> bool) name regs ms i s n,
+  In (s, n) (r_invoked (co_result (snd (rc_step keqb name regs ms i)))) ->
+  (exists h', In h' (co_sel (snd (rc_step keqb name regs ms i))) /\ name (hd_id h') = s) /\
+  pg_rec_finished (pg_find s (ci_body i)) = false /\
+  pg_rec_sleeping (ci_now i) (pg_find s (ci_body i)) = false /\
+  n = pg_rec_retries (pg_find s (ci_body i)).
+Proof. exact (@invoked_are_selected). Qed.
+Print Assumptions C14_cycle_invoked_are_selected.
+
+Theorem C14_cycle_not_on_deleting : forall K (keqb : K -> K -> bool) name regs ms i h,
+  rs_is_resume_handler h = true -> ci_deleting i = true ->
+  In h (co_sel (snd (rc_step keqb name regs ms i))) -> rs_ob (hd_deleted h) = true.
+Proof. exact (@cycle_not_on_deleting). Qed.
+Print Assumptions C14_cycle_not_on_deleting.
+
+(* 2b. At most one successful invocation per process (e), object (k) and resume registration (h), for ALL histories of
+   events / re-listings / edits / outcomes / lifecycles / restarts such that
+     rc_uid_final            DELETED is the last event of the object within a process,
+     rc_world                every event of k shows the progress records as the previous event of k in the process and
+                             kopf's own patch left them,
+     rc_orcs_ok              what an invocation itself writes (sub-handlers) over a finished record still says finished,
+     rc_deleting_permanent   once an event of k shows the deletion timestamp, every later one of the process does,
+     rc_no_purge_while_open  the guard: between h's success and the closing of the cycle no step of k runs the supersession
+                             purge, unless k is being deleted and h has not opted in. *)
+Theorem C14_cycle_at_most_once : forall K (keqb : K -> K -> bool), rs_lawful keqb ->
+  forall name regs k h ls,
+    NoDup (map hd_ix regs) -> In h regs -> rs_is_resume_handler h = true ->
+    rc_uid_final keqb k ls ->
+    rc_world keqb name regs k [] None ls ->
+    rc_orcs_ok keqb k ls ->
+    rc_deleting_permanent keqb k false ls ->
+    rc_no_purge_while_open keqb name regs k (hd_ix h) (rs_ob (hd_deleted h)) [] 0 ls ->
+    forall e, rc_successes keqb name e k (hd_ix h) (rc_trace keqb name regs ls) <= 1.
+Proof. exact (@cycle_at_most_once). Qed.
+Print Assumptions C14_cycle_at_most_once.
+
+(* ... and without the guard the statement is false of the faithful model, on the history of finding F1401: a filtered
+   resume handler succeeds while its sibling retries; the label is switched off (an update: the purge removes its finished
+   record) and on again; every world hypothesis holds; it succeeds twice in process 0. *)
+Theorem C14_cycle_at_most_once_unguarded_refuted :
+  exists regs ls k h,
+    NoDup (map hd_ix regs) /\ In h regs /\ rs_is_resume_handler h = true /\
+    rc_uid_final String.eqb k ls /\
+    rc_world String.eqb xname regs k [] None ls /\
+    rc_orcs_ok String.eqb k ls /\
+    rc_deleting_permanent String.eqb k false ls /\
+    rc_successes String.eqb xname 0 k (hd_ix h) (rc_trace String.eqb xname regs ls) = 2.
+Proof. exact cycle_at_most_once_unguarded_refuted. Qed.
+Print Assumptions C14_cycle_at_most_once_unguarded_refuted.
+
 (* ---------- non-vacuity ---------- *)
 (* uid strings are lawful keys *)
 Example C14_string_keys_lawful : rs_lawful String.eqb.
@@ -150,3 +327,49 @@ Example C14_example_deleting_opted_in :
   let o := snd (rs_step String.eqb ex_regs_del [] ex_deleting_in) in
   ob_reason o = RsDelete /\ ob_initial o = true /\ ob_selected o = [0; 2].
 Proof. exact ex_deleting_selected. Qed.
+
+(* the step of the F1401 history that the guard excludes does run the supersession purge *)
+Example C14_example_flap_purges : rc_purges xname xregs xf2 (snd (xstep xregs xf_ms1 xf2)) = true.
+Proof. exact xflap_purges. Qed.
+
+(* composed model, lifecycle asap: a 410 re-listing inside a retrying resume handler, the retry, a re-listing after the
+   cycle closed, an edit, a restart — (incarnation, cause, cause.initial, selected, invoked (id, retry), fully_handled_once) *)
+Example C14_example_cycle_410_trace : map ysummary (rc_trace String.eqb xname yregs y410) = y410_expected.
+Proof. exact y410_trace. Qed.
+
+(* every hypothesis of C14_cycle_at_most_once holds of it, and the bound is attained in both processes *)
+Example C14_example_cycle_410_hypotheses :
+  NoDup (map hd_ix yregs) /\
+  rc_uid_final String.eqb "u"%string y410 /\
+  rc_world String.eqb xname yregs "u"%string [] None y410 /\
+  rc_orcs_ok String.eqb "u"%string y410 /\
+  rc_deleting_permanent String.eqb "u"%string false y410 /\
+  rc_no_purge_while_open String.eqb xname yregs "u"%string 0 false [] 0 y410.
+Proof. exact y410_hypotheses. Qed.
+
+Example C14_example_cycle_410_counts :
+  rc_successes String.eqb xname 0 "u"%string 0 (rc_trace String.eqb xname yregs y410) = 1 /\
+  rc_successes String.eqb xname 1 "u"%string 0 (rc_trace String.eqb xname yregs y410) = 1.
+Proof. exact y410_counts. Qed.
+
+(* the hypotheses of C14_resume_pending_until_closed hold of its prefix, and the re-listed event is initial *)
+Example C14_example_cycle_410_pending :
+  rs_find String.eqb "u"%string (crun String.eqb xname yregs [] []) = None /\
+  co_handled_after (cobs_at String.eqb xname yregs [] y1) = false /\
+  co_handled_after (cobs_at String.eqb xname yregs [CEv y1] y2) = false /\
+  co_initial0 (cobs_at String.eqb xname yregs [CEv y1; CEv y2] y3) = true.
+Proof. exact y410_pending. Qed.
+
+(* the deletion clause of the guard is not vacuous: the supersession purge of a deletion runs and removes the finished
+   record of a resume handler that did not opt in; every hypothesis still holds; one success *)
+Example C14_example_deletion_supersedes :
+  rc_purges xname zregs z2 (snd (xstep zregs z_ms1 z2)) = true /\
+  pg_find "h0"%string (xnext zregs z_ms1 z2) = None /\
+  NoDup (map hd_ix zregs) /\
+  rc_uid_final String.eqb "u"%string zdel /\
+  rc_world String.eqb xname zregs "u"%string [] None zdel /\
+  rc_orcs_ok String.eqb "u"%string zdel /\
+  rc_deleting_permanent String.eqb "u"%string false zdel /\
+  rc_no_purge_while_open String.eqb xname zregs "u"%string 0 false [] 0 zdel /\
+  rc_successes String.eqb xname 0 "u"%string 0 (rc_trace String.eqb xname zregs zdel) = 1.
+Proof. exact zdel_hypotheses. Qed.
